@@ -167,6 +167,19 @@ static inline VmTrap trap_error(VmState *vm, VmResult err, const char *fmt, ...)
  * external operation (I/O, FFI, halt) or completes / errors.
  * ======================================================================== */
 
+/* Integer division as the language defines it: x / 0 = 0, x % 0 = 0, and the one
+ * quotient that does not fit (INT64_MIN / -1) wraps instead of raising SIGFPE. */
+static inline int64_t vm_i64_div(int64_t a, int64_t b) {
+    if (b == 0) return 0;
+    if (b == -1) return (int64_t)(0 - (uint64_t)a);
+    return a / b;
+}
+
+static inline int64_t vm_i64_mod(int64_t a, int64_t b) {
+    if (b == 0 || b == -1) return 0;
+    return a % b;
+}
+
 #ifdef NANOLANG_VERIF
 long long vm_verif_fuel = -1;
 void (*vm_verif_step_cb)(VmState *vm, const DecodedInstruction *instr, uint32_t instr_start) = NULL;
@@ -605,7 +618,7 @@ VmTrap vm_core_execute(VmState *vm) {
             if (b.tag == TAG_ENUM) { b = val_int((int64_t)b.as.enum_val); }
             if (a.tag == TAG_INT && b.tag == TAG_INT) {
                 /* Division by zero = 0 (matches Coq semantics) */
-                stack_push(vm, val_int(b.as.i64 == 0 ? 0 : a.as.i64 / b.as.i64));
+                stack_push(vm, val_int(vm_i64_div(a.as.i64, b.as.i64)));
             } else if (a.tag == TAG_FLOAT && b.tag == TAG_FLOAT) {
                 stack_push(vm, val_float(b.as.f64 == 0.0 ? 0.0 : a.as.f64 / b.as.f64));
             } else if (a.tag == TAG_FLOAT && b.tag == TAG_INT) {
@@ -623,7 +636,7 @@ VmTrap vm_core_execute(VmState *vm) {
                     NanoValue eb = arr_b->elements[ai];
                     NanoValue ev;
                     if (ea.tag == TAG_INT && eb.tag == TAG_INT)
-                        ev = val_int(eb.as.i64 == 0 ? 0 : ea.as.i64 / eb.as.i64);
+                        ev = val_int(vm_i64_div(ea.as.i64, eb.as.i64));
                     else {
                         double da = ea.tag == TAG_FLOAT ? ea.as.f64 : (double)ea.as.i64;
                         double db = eb.tag == TAG_FLOAT ? eb.as.f64 : (double)eb.as.i64;
@@ -651,9 +664,9 @@ VmTrap vm_core_execute(VmState *vm) {
                     double ds = scalar.tag == TAG_FLOAT ? scalar.as.f64 : (double)scalar.as.i64;
                     if (ea.tag == TAG_INT && scalar.tag == TAG_INT) {
                         if (arr_is_left)
-                            ev = val_int(scalar.as.i64 == 0 ? 0 : ea.as.i64 / scalar.as.i64);
+                            ev = val_int(vm_i64_div(ea.as.i64, scalar.as.i64));
                         else
-                            ev = val_int(ea.as.i64 == 0 ? 0 : scalar.as.i64 / ea.as.i64);
+                            ev = val_int(vm_i64_div(scalar.as.i64, ea.as.i64));
                     } else {
                         double dr = arr_is_left ? (ds == 0.0 ? 0.0 : da / ds)
                                                 : (da == 0.0 ? 0.0 : ds / da);
@@ -677,7 +690,7 @@ VmTrap vm_core_execute(VmState *vm) {
             NanoValue b = stack_pop(vm);
             NanoValue a = stack_pop(vm);
             if (a.tag == TAG_INT && b.tag == TAG_INT) {
-                stack_push(vm, val_int(b.as.i64 == 0 ? 0 : a.as.i64 % b.as.i64));
+                stack_push(vm, val_int(vm_i64_mod(a.as.i64, b.as.i64)));
             } else {
                 return trap_error(vm, VM_ERR_TYPE_ERROR, "MOD: type error");
             }
